@@ -184,6 +184,12 @@ def sched_parts(pid: str, tier: str):
                           "choices": "which suspended coroutine resumes, which futures finish", "setup": "optional setup node, optionally set up before"}, 900, 8, ["w_interleaved"], SCHED_FUNCS))
         if not q:
             parts.append(Part("concurrent-awaits-3", P(run_threads, TCfg(mode="awaits", threads=3)), {"awaits": 3, "N": 3}, 2400, 9, ["w_interleaved"], SCHED_FUNCS))
+    if pid in ("C04", "C05", "C06"):
+        # what the scheduler reads (max_concurrency, is_sequential, priorities) arrives identically through all three loaders
+        from harness.graph import LCfg, run_config_loaders
+
+        parts.append(Part("configuration-loaders-N3", P(run_config_loaders, LCfg(pid)), {"N": 3, "loaders": "config_from_dict / yaml / json", "addressing": "node id, own tag, shared tag", "priorities": "{0, 2, -1}", "is_sequential": "both", "max_concurrency": "{1, 3}"},
+                          600, 6, ["w_loader_dict", "w_loader_yaml", "w_loader_json"], GRAPH_FUNCS))
     if not q and pid in LARGER:
         # beyond the exhaustive shape bound: fixed larger shapes, every attribute / schedule still solver-chosen
         kw5, kw6 = LARGER[pid]
@@ -246,6 +252,10 @@ def graph_parts(pid: str, tier: str):
         parts.append(Part("table-N4-insertion-orders", P(run_c07, GCfg(N=4, relabel=False, debug=False, selection=False, reconf=False, rebuild=True)), {"N": 4, "insertion orders": 24, "how": "DAG(exec_nodes=...) with permuted node table; compose()"}, 600, 5, ["w_rebuilt", "w_diamond"], GRAPH_FUNCS))
         parts.append(Part("table-N3-debug", P(run_c07, GCfg(N=3, relabel=False, debug=True)), {"N": 3, "debug": "one debug leaf, RUN_DEBUG_NODES on/off"}, 600, 5, ["w_debug_in_subgraph"], GRAPH_FUNCS))
         parts.append(Part("order-mc1-N3", P(run_sched, Cfg(N=3, resources="t", sym_prio=True, sym_seq=False, routes="dc", mc_fixed=1, distinct_cp=True, monitors=("C06",))), {"N": 3, "max_concurrency": 1, "assumption": "compound priorities pairwise distinct"}, 600, 6, ["w_returned"], SCHED_FUNCS))
+        from harness.graph import LCfg, run_config_loaders
+
+        parts.append(Part("configuration-loaders-N3", P(run_config_loaders, LCfg("C07")), {"N": 3, "loaders": "config_from_dict / yaml / json", "addressing": "node id, own tag, shared tag", "priorities": "{0, 2, -1}", "is_sequential": "both", "max_concurrency": "{1, 3}"},
+                          600, 6, ["w_loader_dict", "w_loader_yaml", "w_loader_json"], GRAPH_FUNCS))
         # the order seen through the other operations that schedule: a call after a warm-up call and a reconfiguration, DAG.setup()
         parts.append(Part("order-mc1-N3-warmup-reconf", P(run_sched, Cfg(N=3, resources="t", sym_prio=True, sym_seq=False, routes="cpt", warmup=True, mc_fixed=1, monitors=("C06",))), {"N": 3, "max_concurrency": 1, "history": "optional earlier call under the build-time priorities, then config_from_dict"}, 600, 6, ["w_returned", "w_warmup"], SCHED_FUNCS))
         parts.append(Part("order-mc1-N4-setup-run", P(run_sched, Cfg(N=4, resources="t", sym_prio=True, sym_seq=False, setup_call=True, selection=True, mc_fixed=1, fixed_shapes=SHAPES_N4, monitors=("C06",))), {"N": 4, "max_concurrency": 1, "operation": "DAG.setup(<selection>) over setup nodes"}, 600, 6, ["w_returned", "w_setup_call"], SCHED_FUNCS))
